@@ -50,6 +50,12 @@
                                           without ID string / entity, on a sensor that flags "reading/state
                                           unavailable", on non-linear sensors outside the domain of their
                                           function
+  * `lin_domain_all_codes`, `nonlinear_codes_raise_decodingError`, `sensor_values_need_decoding_clause`,
+    `nonlinear_afterRound1_counterexample` all 128 values of the linearisation byte: 70h..7Fh (non-linear, no
+                                          formula) make `lin` raise DecodingError on every reading and
+                                          threshold; `sensor_values_no_python_error` therefore demands a clause
+                                          for it too (`catchesConversion`), which the tree after the first round
+                                          of repairs did not have
   * `sensor_reads_today`, `sdr_show_full_reads_owner_lun`, `sensor_reads_match_api_twin`,
     `sensor_reads_only_sensor_records`, `sdr_list_and_compact_read_lun0`, `sensor_request_is_get_sensor_reading`
     (+ `dropped_owner_lun_counterexample`) which sensor - responder LUN and number - `sdr list` / `sdr show` /
@@ -479,13 +485,39 @@ theorem lin_domain :
       (linRaises l.code (signOfSpec s)).isNone == l.defined s) = true :=
   linRaises_iff_undefined
 
-/-- `sdr list` / `sdr show` / `sdr showall`: no reading or threshold of any linearisation and sign ends the
-command with a Python error, provided the command catches ValueError and ArithmeticError (or wider) between
-the conversion and `main` (read off today's source) -/
+/-- … and for EVERY value of byte 24 [6:0] - the non-linear codes 70h..7Fh and the reserved ones included - the
+model of `lin` raises exactly where the specification says that a tool reading the record has no value to print
+(`Spec.Cli.hasValue`: outside a formula's domain; always for a non-linear sensor, which has no formula) -/
+theorem lin_domain_all_codes :
+    (List.range 128).all (fun code => Spec.Cli.Sign.all.all fun s =>
+      (linRaises code (signOfSpec s)).isNone == Spec.Cli.hasValue code s) = true :=
+  linRaises_iff_noValue
+
+/-- the codes a conforming controller may use are the twelve formulas and 70h..7Fh; for the latter `lin` raises
+`DecodingError` on every reading and every threshold byte, whatever its value (bit 7 of the byte is ignored) -/
+theorem nonlinear_codes_raise_decodingError (byte : Nat) (h : 0x70 ≤ byte % 128) (s : Sign) :
+    Spec.Cli.linConforming (byte % 128) = true ∧ linRaises byte s = some "DecodingError" := by
+  have hlt : byte % 128 < 128 := Nat.mod_lt _ (by decide)
+  refine ⟨?_, linRaises_unknown byte (by omega) s⟩
+  have : ∀ c, c < 128 → 0x70 ≤ c → Spec.Cli.linConforming c = true := by decide +kernel
+  exact this _ hlt h
+
+/-- `sdr list` / `sdr show` / `sdr showall`: no reading or threshold of ANY linearisation byte (all 128 codes:
+the twelve formulas, non-linear 70h, OEM non-linear 71h..7Fh, the reserved ones; in fact every `Nat`) and sign
+ends the command with an exception, provided the command catches ValueError, ArithmeticError and DecodingError
+(or wider) between the conversion and `main` (`catchesConversion`, read off today's source by the translator
+and evaluated by the driver on every run) -/
 theorem sensor_values_no_python_error (cmd : String)
-    (h : catchesArithmetic (catchOf Gen.Cli.handlers cmd) = true) (code : Nat) (s : Sign) :
+    (h : catchesConversion (catchOf Gen.Cli.handlers cmd) = true) (code : Nat) (s : Sign) :
     cellRaises (catchOf Gen.Cli.handlers cmd) code s = none :=
   cellRaises_none _ h code s
+
+/-- the hypothesis is needed: a command that does not catch DecodingError is ended by every cell of every record
+whose linearisation is none of the twelve formulas -/
+theorem sensor_values_need_decoding_clause (cmd : String)
+    (h : catchesDecoding (catchOf Gen.Cli.handlers cmd) = false) (code : Nat) (hc : 12 ≤ code % 128) (s : Sign) :
+    cellRaises (catchOf Gen.Cli.handlers cmd) code s = some "DecodingError" :=
+  cellRaises_unknown _ h code hc s
 
 /-- as shipped: 1/x of 0 ends all three commands, ln / log of 0 ends `sdr list` (the other two print an
 empty line instead of the record) -/
@@ -496,6 +528,35 @@ theorem sensor_values_asShipped_counterexample :
     ∧ cellRaises (catchOf AsShipped.handlers "sdr showall") Spec.Cli.Lin.reciprocal.code .zero = some "ZeroDivisionError"
     ∧ cellRaises (catchOf AsShipped.handlers "sdr show") Spec.Cli.Lin.ln.code .zero = none := by
   decide +kernel
+
+/-- after the repairs of the first audit round (b88fd9b: `except (ValueError, ArithmeticError)`) the three
+commands cope with the twelve formulas - and are still ended, with `DecodingError`, by EVERY reading and
+threshold of every non-linear sensor (70h, 71h..7Fh; any byte whose low seven bits are ≥ 12), although
+`catchesArithmetic` holds for them -/
+theorem nonlinear_afterRound1_counterexample (cmd : String)
+    (hc : cmd = "sdr list" ∨ cmd = "sdr show" ∨ cmd = "sdr showall") :
+    catchesArithmetic (catchOf AsShipped.handlersAfterRound1 cmd) = true
+    ∧ catchesConversion (catchOf AsShipped.handlersAfterRound1 cmd) = false
+    ∧ (∀ code s, code % 128 < 12 → cellRaises (catchOf AsShipped.handlersAfterRound1 cmd) code s = none)
+    ∧ (∀ code s, 12 ≤ code % 128 →
+        cellRaises (catchOf AsShipped.handlersAfterRound1 cmd) code s = some "DecodingError")
+    ∧ cellRaises (catchOf AsShipped.handlersAfterRound1 cmd) 0x70 .pos = some "DecodingError"
+    ∧ cellRaises (catchOf AsShipped.handlersAfterRound1 cmd) 0x7f .pos = some "DecodingError" := by
+  have hd : catchesDecoding (catchOf AsShipped.handlersAfterRound1 cmd) = false := by
+    rcases hc with rfl | rfl | rfl <;> decide +kernel
+  have ha : catchesArithmetic (catchOf AsShipped.handlersAfterRound1 cmd) = true := by
+    rcases hc with rfl | rfl | rfl <;> decide +kernel
+  refine ⟨ha, by simp [catchesConversion, ha, hd], ?_, fun code s h => cellRaises_unknown _ hd code h s,
+    cellRaises_unknown _ hd 0x70 (by decide) _, cellRaises_unknown _ hd 0x7f (by decide) _⟩
+  intro code s h
+  unfold catchesArithmetic at ha
+  simp only [Bool.and_eq_true] at ha
+  unfold cellRaises
+  rcases linRaises_cases code s with h0 | h0 | h0 | h0
+  · rw [h0]
+  · rw [h0]; simp [ha.1]
+  · rw [h0]; simp [ha.2]
+  · exact absurd h0 (linRaises_known code h s)
 
 /-! ### which sensor the printing commands read (owner LUN and number) -/
 
@@ -612,6 +673,18 @@ example : (⟨10, 0, true⟩ : ArgConv).parse (ofString "0x0a") = some 10
     ∧ (⟨10, 0, false⟩ : ArgConv).parse (ofString "0x0a") = none := by decide +kernel
 example : catchesArithmetic ["ValueError", "ArithmeticError"] = true
     ∧ cellRaises ["ValueError", "ArithmeticError"] Spec.Cli.Lin.reciprocal.code .zero = none := by decide +kernel
+-- the hypothesis of `sensor_values_no_python_error` is satisfiable (the repaired `sensor_value()`), and it is not
+-- trivially true: without the third class a non-linear sensor ends the command
+example : catchesConversion ["ValueError", "ArithmeticError", "DecodingError"] = true
+    ∧ cellRaises ["ValueError", "ArithmeticError", "DecodingError"] 0x70 .pos = none
+    ∧ cellRaises ["ValueError", "ArithmeticError", "DecodingError"] 0xff .zero = none
+    ∧ catchesConversion ["ValueError", "ArithmeticError"] = false
+    ∧ cellRaises ["ValueError", "ArithmeticError"] 0x7f .pos = some "DecodingError"
+    ∧ catchesConversion ["Exception"] = true := by decide +kernel
+example : Spec.Cli.linClass 0x70 = .nonLinear ∧ Spec.Cli.linClass 0x7f = .oemNonLinear
+    ∧ Spec.Cli.linClass 7 = .formula .reciprocal ∧ Spec.Cli.linClass 0x0c = .reserved
+    ∧ Spec.Cli.linConforming 0x6f = false ∧ Spec.Cli.hasValue 0x70 .pos = false
+    ∧ Spec.Cli.hasValue 0 .zero = true := by decide +kernel
 example : sdrShowRaises ⟨true, true, true, true, []⟩ false false = none
     ∧ sdrShowRaises ⟨true, false, true, true, []⟩ false true = some "AttributeError"
     ∧ sdrStateRaises ⟨true, true, true, true, []⟩ false = none := by decide +kernel
